@@ -424,4 +424,26 @@ theorem findMediaByURL_controls {u : Url} (h : InScope u) (hq : u.forceQuery = f
       simp [mediaMatches_control h hq]; omega
   simp only [hidx, hlen, hi, if_true]
 
+/-! ### the authority of a request target -/
+
+set_option maxRecDepth 8000 in
+theorem escape_host_byte : ∀ c : UInt8, ∀ x ∈ (if shouldEscape c .host then [37, upperHex (c >>> 4), upperHex (c &&& 15)] else [c]),
+    x ≠ 64 ∧ isDelim x = false :=
+  forall_byte (by decide)
+
+theorem escape_host_clean (h : Str) : ∀ x ∈ escape .host h, x ≠ 64 ∧ isDelim x = false := by
+  intro x hx
+  unfold escape at hx
+  obtain ⟨c, _, hc⟩ := List.mem_flatMap.1 hx
+  exact escape_host_byte c x hc
+
+theorem takeWhile_noDelim {a rest : Str} (ha : ∀ x ∈ a, isDelim x = false)
+    (hr : rest = [] ∨ ∃ c t, rest = c :: t ∧ isDelim c = true) :
+    (a ++ rest).takeWhile (fun c => !isDelim c) = a := by
+  rw [List.takeWhile_append_of_pos]
+  · rcases hr with rfl | ⟨c, t, rfl, hc⟩
+    · simp
+    · simp [hc]
+  · intro c m; simp [ha c m]
+
 end Rtsp.Url
